@@ -174,8 +174,19 @@ def _leaf(r, pool, ids, rel, opts):
 def _container(r, pool, ids, rel, depth, opts):
     from highdicom import sr
     name, nm = _name(r)
-    it = sr.ContainerContentItem(name=name, relationship_type=rel,
-                                 template_id=('1500' if False else None))
+    # template identification and continuity vary (roots: any template incl. TID 1500, which takes the
+    # MeasurementReport branch of the parser; nested: group templates, private ids)
+    if rel is None:
+        tid = r.choice([None, None, '2000', '1500', '2010', '9999'])
+    else:
+        tid = r.choice([None, None, None, '1410', '1501', '300'])
+    it = sr.ContainerContentItem(name=name, relationship_type=rel, template_id=tid,
+                                 is_content_continuous=r.random() < 0.7)
+    if r.random() < 0.25:
+        # optional attributes of the Document Relationship Macro, on the root as on any other item
+        it.ObservationDateTime = '2020010112%02d00' % r.randint(0, 59)
+        if r.random() < 0.5:
+            it.ObservationUID = uid(r, 'obs')
     spec = {'id': ids.next(), 'vt': 'CONTAINER', 'name': nm, 'rel': rel, 'ref': None, 'has_seq': False, 'children': []}
     fan = r.choice(opts.get('fanouts', [0, 1, 2, 2, 3, 3, 4, 5]))
     if rel is None and fan == 0 and not opts.get('allow_empty_root'):
